@@ -124,6 +124,13 @@ def check(case, ctx):
             v = GRD(X, X @ case["Q"], **idx)
         ctx.true("GRD(X,XQ)==0", v <= 1e-6, "GRD of a rotation of X is %.3e (fx=%d)" % (v, fx))
         ctx.count("planted_checked")
+        # user-supplied scaler (column-wise standardisation is a linear map per column, contained information stays contained)
+        from skmatter.preprocessing import StandardFlexibleScaler
+        with ctx.lib("GRE(X, XA, scaler)"):
+            v = GRE(X, X @ case["A"], scaler=StandardFlexibleScaler(column_wise=True), **idx)
+            pv = np.asarray(pGRE(X, X @ case["A"], scaler=StandardFlexibleScaler(column_wise=True), **idx))
+        ctx.true("GRE(X,XA)==0(column-wise scaler)", v <= 1e-6, "GRE of a linear function of X with a column-wise scaler is %.3e" % v)
+        ctx.close("GRE:global==rms(pointwise)(column-wise scaler)", v, float(np.sqrt(np.mean(pv ** 2))), 1e-10 * max(1.0, v), "user scaler")
     else:
         ctx.skip("planted maps: an inner CV fold of the training part is rank deficient")
     # --- every function defined, non-negative, RMS; invariances ---------------------------------------------
